@@ -1,132 +1,4 @@
-//@unit name=tree
-// U-tree: canister/src/blocktree.rs — best-chain selection, depths, chain lookup.
-// TRUSTED PRELUDE (stand-ins and assumed specs) — every item here is listed in evidence.trusted_base.
-use vstd::prelude::*;
-verus! {
-use vstd::std_specs::cmp::{OrdSpec, PartialOrdSpec};
-use core::cmp::Ordering;
-use std::ops::{Add, Sub};
-
-// [trusted:stand-in] ic_btc_types::BlockHash is `[u8; 32]` with derived equality; only equality is used here.
-#[derive(PartialEq, Eq, Clone, Copy, Structural)]
-struct BlockHash(u64);
-
-// [trusted:stand-in] bitcoin::block::Header — opaque in this unit.
-struct Header { time: u32 }
-
-// [trusted:assumed-spec] std::cmp::max on an Ord type returns the larger (b on ties)
-pub assume_specification<T: std::cmp::Ord>[std::cmp::max](a: T, b: T) -> (r: T)
-    ensures
-        T::obeys_cmp_spec() ==> (r == if a.cmp_spec(&b) == core::cmp::Ordering::Greater { a } else { b }),
-;
-
-// [trusted:assumed-spec] <[T]>::reverse reverses the slice in place
-pub assume_specification<T>[<[T]>::reverse](s: &mut [T])
-    ensures final(s)@ == old(s)@.reverse(),
-;
-
-fn vp_assert(b: bool)
-    requires b,
-{}
-
-//@extract file=canister/src/blocktree.rs item="struct Depth"
-//@end
-//@extract file=canister/src/blocktree.rs item="struct DifficultyBasedDepth"
-//@end
-
-impl Depth {
-//@extract file=canister/src/blocktree.rs in="impl Depth" item="fn new" props=C03,C04
-//@ ret r
-//@ spec
-//@| ensures r.0 == value,
-//@end
-//@extract file=canister/src/blocktree.rs in="impl Depth" item="fn get" props=C03,C04
-//@ ret r
-//@ spec
-//@| ensures r == self.0,
-//@end
-//@extract file=canister/src/blocktree.rs in="impl Depth" item="fn saturating_sub" props=C03
-//@ ret r
-//@ spec
-//@| ensures r.0 == if self.0 >= other.0 { (self.0 - other.0) as u64 } else { 0u64 },
-//@end
-}
-
-impl DifficultyBasedDepth {
-//@extract file=canister/src/blocktree.rs in="impl DifficultyBasedDepth" item="fn new" props=C02,C03
-//@ ret r
-//@ spec
-//@| ensures r.0 == value,
-//@end
-//@extract file=canister/src/blocktree.rs in="impl DifficultyBasedDepth" item="fn get" props=C02,C03
-//@ ret r
-//@ spec
-//@| ensures r == self.0,
-//@end
-}
-
-//@extract file=canister/src/blocktree.rs item="impl Add for Depth" props=C03,C04
-//@end
-//@extract file=canister/src/blocktree.rs item="impl Add for DifficultyBasedDepth" props=C02,C03
-//@end
-//@extract file=canister/src/blocktree.rs item="impl Sub for DifficultyBasedDepth" props=C03
-//@end
-
-// Contracts of the operator impls (Verus attaches them through the *SpecImpl traits; the
-// bodies above are verified against them, overflow included).
-impl vstd::std_specs::ops::AddSpecImpl for Depth {
-    closed spec fn obeys_add_spec() -> bool { true }
-    closed spec fn add_req(self, other: Self) -> bool { self.0 + other.0 <= u64::MAX }
-    closed spec fn add_spec(self, other: Self) -> Self { Depth((self.0 + other.0) as u64) }
-}
-impl vstd::std_specs::ops::AddSpecImpl for DifficultyBasedDepth {
-    closed spec fn obeys_add_spec() -> bool { true }
-    closed spec fn add_req(self, other: Self) -> bool { self.0 + other.0 <= u128::MAX }
-    closed spec fn add_spec(self, other: Self) -> Self { DifficultyBasedDepth((self.0 + other.0) as u128) }
-}
-impl vstd::std_specs::ops::SubSpecImpl for DifficultyBasedDepth {
-    closed spec fn obeys_sub_spec() -> bool { true }
-    closed spec fn sub_req(self, other: Self) -> bool { self.0 >= other.0 }
-    closed spec fn sub_spec(self, other: Self) -> Self { DifficultyBasedDepth((self.0 - other.0) as u128) }
-}
-
-
-// [trusted:axioms] semantics of #[derive(PartialOrd, Ord)] on one-field tuple structs and of
-// the lexicographic order on pairs (std). One trigger per axiom.
-mod ax {
-    use vstd::prelude::*;
-    use super::*;
-    use vstd::std_specs::cmp::{OrdSpec, PartialOrdSpec};
-    use core::cmp::Ordering;
-
-    pub(crate) open spec fn ord_int(a: int, b: int) -> Ordering {
-        if a < b { Ordering::Less } else if a == b { Ordering::Equal } else { Ordering::Greater }
-    }
-
-    #[verifier::external_body]
-    pub(crate) broadcast proof fn axiom_pair_ord(a: (DifficultyBasedDepth, usize), b: (DifficultyBasedDepth, usize))
-        ensures
-            <(DifficultyBasedDepth, usize)>::obeys_partial_cmp_spec(),
-            #[trigger] a.partial_cmp_spec(&b) == Some(
-                if a.0.0 != b.0.0 { ord_int(a.0.0 as int, b.0.0 as int) } else { ord_int(a.1 as int, b.1 as int) }),
-    {}
-
-    #[verifier::external_body]
-    pub(crate) broadcast proof fn axiom_depth_ord(a: Depth, b: Depth)
-        ensures
-            Depth::obeys_cmp_spec(),
-            #[trigger] a.cmp_spec(&b) == ord_int(a.0 as int, b.0 as int),
-    {}
-
-    #[verifier::external_body]
-    pub(crate) broadcast proof fn axiom_dbd_ord(a: DifficultyBasedDepth, b: DifficultyBasedDepth)
-        ensures
-            DifficultyBasedDepth::obeys_cmp_spec(),
-            #[trigger] a.cmp_spec(&b) == ord_int(a.0 as int, b.0 as int),
-    {}
-}
-broadcast use {ax::axiom_pair_ord, ax::axiom_depth_ord, ax::axiom_dbd_ord};
-
+// fragment: canister/src/blocktree.rs — spec functions, lemmas and contracts (C02 C03 C04 C06 C13)
 //@extract file=canister/src/blocktree.rs item="trait ChainBlock"
 //@ rewrite R9 "fn header\(&self\) -> &Header;" => "spec fn sheader(&self) -> Header; fn header(&self) -> (r: &Header) ensures *r == self.sheader();"
 //@ rewrite R9 "fn block_hash\(&self\) -> &BlockHash;" => "spec fn shash(&self) -> BlockHash; fn block_hash(&self) -> (r: &BlockHash) ensures *r == self.shash();"
@@ -757,9 +629,3 @@ spec fn lex_le(a: Seq<int>, b: Seq<int>) -> bool
     else { lex_le(a.skip(1), b.skip(1)) }
 }
 
-proof fn vp_canary_axioms()
-    ensures false,
-{}
-
-} // verus!
-fn main() {}
